@@ -984,7 +984,7 @@ Qed.
 (* ------------------------------------------------------------------ C06: the pretty printer *)
 (* The formatter as it stands never re-emits source parentheses: refuted by `(a + b) * c`.
    The repaired formatter (proposed_fixes/C06-pretty-parentheses.diff, model `pretty`) is exercised by the
-   correspondence run and by the examples below; its general round-trip theorem is not proved here. *)
+   correspondence run and by the examples below; its general round-trip theorem is proved in Syntax/PrettyRoundtrip.v. *)
 Definition pp_R : registry := fun key =>
   if text_eqb key [43%Z] then {| oi_bin := Some 6%nat; oi_un := true; oi_nul := false |}
   else if text_eqb key [42%Z] then {| oi_bin := Some 7%nat; oi_un := false; oi_nul := false |}
